@@ -1028,6 +1028,82 @@ Proof.
   injection H as <-. reflexivity.
 Qed.
 
+(* ================================================================== the step theorems, spelled out
+   over vstep (what Props/C17.v states) *)
+Lemma fstep_of_expand (P : fstep -> bool) (s : vsock) o :
+  P (fstep_of cci s o) = true ->
+  let '(s', out, dw, sw) := vstep cci s o in
+  P {| fs_now := v_env_now s'; fs_pre := fp_of_vsock cci s; fs_event := fevent_of o;
+       fs_result := fresult_of out; fs_disp_woken := dw; fs_self_woken := sw;
+       fs_post := fp_of_vsock cci s' |} = true.
+Proof. unfold fstep_of. destruct (vstep cci s o) as [[[s' out] dw] sw]. auto. Qed.
+
+Theorem c17_reset_ok_vstep : forall cfg (s : vsock) o,
+  let '(s', out, dw, sw) := vstep cci s o in
+  c17_reset_ok cfg
+    {| fs_now := v_env_now s'; fs_pre := fp_of_vsock cci s; fs_event := fevent_of o;
+       fs_result := fresult_of out; fs_disp_woken := dw; fs_self_woken := sw;
+       fs_post := fp_of_vsock cci s' |} = true.
+Proof. intros cfg s o. apply (fstep_of_expand (c17_reset_ok cfg)). apply c17_reset_ok_step. Qed.
+
+Theorem c17_fin_number_step_ok_vstep : forall cfg (s : vsock) o,
+  let '(s', out, dw, sw) := vstep cci s o in
+  c17_fin_number_step_ok cfg
+    {| fs_now := v_env_now s'; fs_pre := fp_of_vsock cci s; fs_event := fevent_of o;
+       fs_result := fresult_of out; fs_disp_woken := dw; fs_self_woken := sw;
+       fs_post := fp_of_vsock cci s' |} = true.
+Proof. intros cfg s o. apply (fstep_of_expand (c17_fin_number_step_ok cfg)). apply c17_fin_number_step_ok_step. Qed.
+
+Theorem c17_synack_ok_vstep : forall cfg (s : vsock) o,
+  syn_pre cfg s ->
+  let '(s', out, dw, sw) := vstep cci s o in
+  c17_synack_ok cfg
+    {| fs_now := v_env_now s'; fs_pre := fp_of_vsock cci s; fs_event := fevent_of o;
+       fs_result := fresult_of out; fs_disp_woken := dw; fs_self_woken := sw;
+       fs_post := fp_of_vsock cci s' |} = true.
+Proof. intros cfg s o H. apply (fstep_of_expand (c17_synack_ok cfg)). apply c17_synack_ok_step. exact H. Qed.
+
+Theorem syn_pre_vstep_expanded : forall cfg (s : vsock) o,
+  syn_pre cfg s -> let '(s', _, _, _) := vstep cci s o in syn_pre cfg s'.
+Proof.
+  intros cfg s o H. pose proof (syn_pre_vstep cfg s o H) as K. unfold vstep_state in K.
+  destruct (vstep cci s o) as [[[s' out] dw] sw]. exact K.
+Qed.
+
+Theorem c17_fin_after_data_ok_vstep_gen : forall cfg (s : vsock) o,
+  let '(s', out, dw, sw) := vstep cci s o in
+  let st := {| fs_now := v_env_now s'; fs_pre := fp_of_vsock cci s; fs_event := fevent_of o;
+               fs_result := fresult_of out; fs_disp_woken := dw; fs_self_woken := sw;
+               fs_post := fp_of_vsock cci s' |} in
+  c17_seg_bounds (fs_post st) = true ->
+  v_inbox_closed s = false \/ c17_not_err_send (fs_result st) = true ->
+  c17_fin_after_data_ok cfg st = true.
+Proof.
+  intros cfg s o. pose proof (c17_fin_after_data_ok_step_gen cfg s o) as H. unfold fstep_of in H.
+  destruct (vstep cci s o) as [[[s' out] dw] sw]. exact H.
+Qed.
+
+Theorem c17_fin_after_data_guarded_vstep : forall cfg (s : vsock) o,
+  let '(s', out, dw, sw) := vstep cci s o in
+  c17_fin_after_data_guarded cfg
+    {| fs_now := v_env_now s'; fs_pre := fp_of_vsock cci s; fs_event := fevent_of o;
+       fs_result := fresult_of out; fs_disp_woken := dw; fs_self_woken := sw;
+       fs_post := fp_of_vsock cci s' |} = true.
+Proof. intros cfg s o. apply (fstep_of_expand (c17_fin_after_data_guarded cfg)). apply c17_fin_after_data_guarded_step. Qed.
+
+Theorem c17_fin_after_data_bounded_vstep : forall cfg (s : vsock) o,
+  v_inbox_closed s = false ->
+  let '(s', out, dw, sw) := vstep cci s o in
+  c17_fin_after_data_bounded cfg
+    {| fs_now := v_env_now s'; fs_pre := fp_of_vsock cci s; fs_event := fevent_of o;
+       fs_result := fresult_of out; fs_disp_woken := dw; fs_self_woken := sw;
+       fs_post := fp_of_vsock cci s' |} = true.
+Proof.
+  intros cfg s o H. apply (fstep_of_expand (c17_fin_after_data_bounded cfg)).
+  unfold c17_fin_after_data_bounded. destruct (c17_seg_bounds _) eqn:Eb; [|reflexivity].
+  apply c17_fin_after_data_ok_step_open; assumption.
+Qed.
+
 End WithCC.
 
 (* ================================================================== witnesses *)
